@@ -103,6 +103,31 @@ def replay(case):
                     exact(xs, name + ':normalize')
             except Exception as e:
                 out.append(('%s:normalize:exception:%s' % (name, type(e).__name__), repr(e)))
+        # second use of one operator object: evolved once, re-scaled in place by the caller (first core x 2), evolved again with
+        # half the step size - h H is the same, so is every state
+        for name, f, kw2 in (('tdvp1site', ode.tdvp1site, {}), ('tdvp2site', ode.tdvp2site, dict(threshold=0, max_rank=64))):
+            if name == 'tdvp2site' and d < 2:
+                continue
+            try:
+                H2 = H.copy()
+                f(H2, x0, h, n, **kw2)
+                H2.cores[0] = 2.0 * H2.cores[0]
+                xs = traj_ok(f(H2, x0, h / 2, n, **kw2), name + ':second-use')
+                if xs is not None:
+                    exact(xs, name + ':second-use')
+                # ... and with the same step size: the evolution under 2H
+                xs = traj_ok(f(H2, x0, h, n, **kw2), name + ':second-use')
+                if xs is not None:
+                    U2 = U @ U
+                    want = x0d.astype(complex)
+                    for k in range(1, n + 1):
+                        want = U2 @ want
+                        if np.linalg.norm(xs[k] - want) > 1e-8:
+                            out.append(('%s:second-use:exact:%s' % (name, kind), 'operator object re-scaled in place (x 2) between two runs: state %d '
+                                        'differs from exp(-i k h 2H) x0 by %.3e (dims %r)' % (k, np.linalg.norm(xs[k] - want), dims)))
+                            break
+            except Exception as e:
+                out.append(('%s:second-use:exception:%s' % (name, type(e).__name__), repr(e)))
     try:
         xs = traj_ok(ode.tdvp(H, x0, h, n, threshold=0, max_rank=64), 'tdvp')
         if xs is not None and full:
